@@ -837,3 +837,64 @@ func c06EveryRunCount(c *Ctx, index int) {
 		c.Eval(1)
 	})
 }
+
+// ---------------------------------------------------------------- C10: prefixes of the largest streams
+
+// c10HugePrefixes: proper prefixes of valid streams of a bitmap holding all 65536 chunks (the chunk-count field at
+// its maximum, under both cookies): the first 40 cuts, cuts around the header tables and sampled cuts.
+func c10HugePrefixes(c *Ctx) {
+	r := c.R
+	var b *roaring.Bitmap
+	var m *ISet
+	want := r.Intn(2) // 0: a stream without run chunks (cookie 12346), 1: with run chunks (cookie 12347)
+	for salt := uint64(0); salt < 40; salt++ {
+		bb, mm, _ := buildNChunks(c, 65536, mix(c.CaseSeed, salt))
+		hasRun := false
+		for _, s := range bb.VerifView().Slots {
+			if s.Kind == roaring.VerifRun {
+				hasRun = true
+				break
+			}
+		}
+		if hasRun == (want == 1) {
+			b, m = bb, mm
+			break
+		}
+	}
+	if b == nil {
+		c.Note("no 65536-chunk bitmap of the wanted cookie kind was generated")
+		return
+	}
+	wire, err := b.ToBytes()
+	if err != nil {
+		c.Fail("ToBytes/error", "%v", err)
+		return
+	}
+	c.Step("valid portable stream of %d bytes for a bitmap with 65536 chunks (run cookie=%v); sampled proper prefixes", len(wire), want == 1)
+	c.Count(fmt.Sprintf("huge_prefix_stream_cookie_%d", uint32(wire[0])|uint32(wire[1])<<8))
+	cuts := []int{len(wire) - 1, len(wire) - 2, len(wire) - 9}
+	for k := 0; k < 40; k++ {
+		cuts = append(cuts, k)
+	}
+	// header tables: run flags (8192 bytes), key/cardinality table (4 x 65536), offset table (4 x 65536)
+	for _, e := range []int{4 + 8192, 8 + 4*65536, 4 + 8192 + 4*65536, 8 + 8*65536, 4 + 8192 + 8*65536} {
+		for d := -2; d <= 2; d++ {
+			cuts = append(cuts, e+d)
+		}
+	}
+	for i := 0; i < 25; i++ {
+		cuts = append(cuts, r.Intn(len(wire)))
+	}
+	for _, k := range cuts {
+		if c.Failed() {
+			return
+		}
+		if k < 0 || k >= len(wire) {
+			continue
+		}
+		_, done := feedAll(c, wire[:k], "prefix", true)
+		done()
+		c.Distinct(mix(m.Hash(), uint64(k)))
+	}
+	c.CountN("prefixes_fed", int64(len(cuts)))
+}
